@@ -17,7 +17,7 @@ RULE = ("laws: Hypothesis draws triples X,Y,Z of one group type (generators of C
         "rotation()/translation()/scale(); M(X@Y)=M(X)M(Y); associativity; X@Inv(X)=Inv(X)@X=I; identity constructors "
         "neutral on both sides; Act on 3- and 4-vectors == M p; (X@Y).Act(p)=X.Act(Y.Act(p)); X@p and X*p == Act. "
         "Tolerance 16*eps*prod(|M|_inf of the factors)*(1+|p|).  history: run-length encoded histories (<=1500 steps "
-        "quick, 10^4 thorough) of left/right products, Inv, add_, +, Retr on ONE element against a float64 matrix "
+        "quick, 10^4 thorough) of left/right products, Inv, add_, +, Retr (increment magnitude per block from {0.3, 1e-2, 7e-4, 1e-6}) on ONE element against a float64 matrix "
         "model; after EVERY step | |q|-1 | <= 4 eps (1+n), scale>0 and |matrix - model| <= 256 eps (1+n) * running "
         "scale.  Non-trivial: triple with pairwise non-commuting rotations and non-zero translations; history with "
         ">=1 Inv, >=1 retraction and >=100 steps.  distinct = (ltype, dtype, regimes) / (ltype, dtype, rule multiset, length class).")
@@ -203,7 +203,8 @@ class History(Sub):
                 if rep <= 0:
                     break
                 total += rep
-                blocks.append([rule, draw(st.integers(0, 2 ** 31 - 1)), rep])
+                # increment magnitude class of this block (retraction rules): generic, small, below 1e-3, tiny
+                blocks.append([rule, draw(st.integers(0, 2 ** 31 - 1)), rep, draw(st.sampled_from((0.3, 0.3, 1e-2, 7e-4, 1e-6)))])
             return {"ltype": lt, "dtype": dtype, "x0": x0, "blocks": blocks}
         return s()
 
@@ -217,7 +218,9 @@ class History(Sub):
         smax = max(1.0, float(np.abs(M).max()))
         used = set()
         td = tu.TD[dtype]
-        for rule, seed, rep in case["blocks"]:
+        for blk in case["blocks"]:
+            rule, seed, rep = blk[0], blk[1], blk[2]
+            ascale = blk[3] if len(blk) > 3 else 0.3
             rs = np.random.RandomState(seed)
             for _ in range(rep):
                 n += 1
@@ -241,9 +244,9 @@ class History(Sub):
                     elif rule == "inv":
                         X = X.Inv(); M = np.linalg.inv(M)
                     else:
-                        a = 0.3 * rs.randn(R.ADIM[alt])
+                        a = ascale * rs.randn(R.ADIM[alt])
                         if alt in ("rxso3", "sim3"):
-                            a[-1] = 0.1 * rs.uniform(-1, 1)
+                            a[-1] = min(0.1, ascale) * rs.uniform(-1, 1)
                             cur = abs(np.linalg.det(M[:3, :3])) ** (1 / 3)
                             if (cur > 50 and a[-1] > 0) or (cur < 0.02 and a[-1] < 0):
                                 a[-1] = -a[-1]
@@ -288,7 +291,7 @@ class History(Sub):
             if b[i][2] > 1:
                 for r in sorted({1, b[i][2] // 2, b[i][2] - 1}):
                     if 1 <= r < b[i][2]:
-                        yield dict(case, blocks=b[:i] + [[b[i][0], b[i][1], r]] + b[i + 1:])
+                        yield dict(case, blocks=b[:i] + [[b[i][0], b[i][1], r] + b[i][3:]] + b[i + 1:])
         if case["dtype"] == "float32":
             yield dict(case, dtype="float64")
 
